@@ -18,6 +18,7 @@ import re
 from .common import *
 from ..bits import BitEngine, val_bits, in_byte, is_bv, flatten_be, show_cells, T, bv_const
 from ..report import VERIF
+from ..tables import canon
 
 LEVEL = 'proof'
 
@@ -227,10 +228,12 @@ def _construction(chk, prog, ty, spec, meths):
             d = [(vshow(a), v) for a, v, _ in o.st.decisions]
             val = vshow(o.value)
             detail.append((d, val[:60]))
-            if len(d) != 1 or not re.fullmatch(r'Ge\(len\(packet\), %d\)|Le\(%d, len\(packet\)\)' % (spec['min'], spec['min']), d[0][0]):
+            want_ = canon('Ge(len(packet), %d)' % spec['min'], 1)
+            got_ = canon(d[0][0], d[0][1]) if len(d) == 1 and d[0][1] in (0, 1) else None
+            if got_ is None or got_[0] != want_[0]:
                 good = False
                 continue
-            okv = d[0][1] == 1
+            okv = got_[1] == want_[1]
             if okv:
                 bufv = 'Buffer::Mutable(packet)' if ctor == 'new' else 'Buffer::Immutable(packet)'
                 if not re.fullmatch(r'Result::Ok\(\w+\(%s\)\)' % re.escape(bufv), val):
